@@ -77,7 +77,58 @@ def commit(db, kind, n, snap):
     return 0
 
 
+def agent(db):
+    """JSON-lines server: one real SQLite connection in this process, never blocking (busy timeout 0)."""
+    import json
+    con = sqlite3.connect(db, isolation_level=None, timeout=0)
+    cursors = {}
+
+    def out(m):
+        m["pid"] = os.getpid()
+        sys.stdout.write(json.dumps(m) + "\n")
+        sys.stdout.flush()
+    for line in sys.stdin:
+        c = json.loads(line)
+        cmd = c.get("cmd")
+        try:
+            if cmd == "ping":
+                out({"ok": True})
+            elif cmd == "sql":
+                rows = con.execute(c["sql"], c.get("params", [])).fetchall()
+                out({"ok": True, "rows": [[x if not isinstance(x, bytes) else x.hex() for x in r] for r in rows[:50]], "n": len(rows)})
+            elif cmd == "open_cursor":       # a SELECT stepped once and left open: the connection stays SHARED
+                cur = con.execute(c["sql"])
+                cur.fetchone()
+                cursors[c.get("name", "c")] = cur
+                out({"ok": True})
+            elif cmd == "close_cursor":
+                cur = cursors.pop(c.get("name", "c"), None)
+                if cur is not None:
+                    cur.fetchall()
+                    cur.close()
+                out({"ok": True})
+            elif cmd == "in_transaction":
+                out({"ok": True, "in_transaction": con.in_transaction})
+            elif cmd == "quit":
+                out({"ok": True})
+                break
+            else:
+                out({"ok": False, "error": "unknown command"})
+        except sqlite3.OperationalError as e:
+            msg = str(e)
+            out({"ok": False, "busy": "locked" in msg or "busy" in msg, "error": msg})
+        except Exception as e:
+            out({"ok": False, "busy": False, "error": "%s: %s" % (type(e).__name__, e)})
+    try:
+        con.close()
+    except Exception:
+        pass
+    return 0
+
+
 if __name__ == "__main__":
+    if sys.argv[1] == "agent":
+        sys.exit(agent(sys.argv[2]))
     if sys.argv[1] == "commit":
         sys.exit(commit(sys.argv[2], sys.argv[3], int(sys.argv[4]), sys.argv[5] if len(sys.argv) > 5 else None))
     sys.exit(2)
